@@ -395,6 +395,16 @@ func (p *Posix) CreateBucket(ctx context.Context, input *s3.CreateBucketInput, a
 		}
 	}
 
+	// Metadata stores that keep the attributes apart from the bucket
+	// directory may still hold the settings (policy, tags, ...) of a
+	// deleted bucket of this name: the new bucket must not inherit them.
+	// (Done here and not in DeleteBucket, where it would race with the
+	// creation of a new bucket of the same name.)
+	err = p.meta.DeleteAttributes(bucket, "")
+	if err != nil {
+		return fmt.Errorf("remove stale bucket attributes: %w", err)
+	}
+
 	err = p.meta.StoreAttribute(nil, bucket, "", aclkey, acl)
 	if err != nil {
 		return fmt.Errorf("set acl: %w", err)
@@ -490,13 +500,6 @@ func (p *Posix) DeleteBucket(_ context.Context, bucket string) error {
 	}
 	if err != nil {
 		return fmt.Errorf("remove bucket: %w", err)
-	}
-	// Metadata stores that keep the attributes apart from the bucket
-	// directory still hold the bucket settings (policy, tags, ...): a
-	// bucket created again under this name must not inherit them
-	err = p.meta.DeleteAttributes(bucket, "")
-	if err != nil {
-		return fmt.Errorf("remove bucket attributes: %w", err)
 	}
 	// Remove the bucket from versioning directory
 	if p.versioningEnabled() {
